@@ -230,6 +230,9 @@ fn hash_state(w: &World, root_waker: &Waker, last_release: Option<usize>, root_f
         (t.flag.0.load(SeqCst), t.done).hash(&mut h);
     }
     (root_flag, root_done, spur).hash(&mut h);
+    // what the invariants read beyond the above: which released gates had a parked waiter, unwatched completions, task panics
+    w.parked_released.hash(&mut h);
+    (w.unwatched > 0, w.task_panics > 0).hash(&mut h);
     log.hash(&mut h);
     h.finish()
 }
